@@ -112,7 +112,7 @@ Print Assumptions inject_is_erasure.
 Theorem metered_run_is_sem_run : forall cfg m m' afs host cap fuel fi args,
   inject cfg m = Some m' -> ameter_funcs cfg m = Some afs ->
   snd (trun host cap m' afs fuel fi args) = run host cap m' fuel fi args.
-Proof. intros. apply trun_erase. eapply inject_erase; eassumption. Qed.
+Proof. exact MeterSafe.run_is_sem_run. Qed.
 Print Assumptions metered_run_is_sem_run.
 
 (** the number of executed instructions of non-zero cost in ANY PREFIX is bounded by the energy
@@ -121,11 +121,7 @@ Theorem costed_steps_le_ticks : forall cfg m m' afs host cap fuel fi args T o,
   inject cfg m = Some m' -> ameter_funcs cfg m = Some afs ->
   trun host cap m' afs fuel fi args = (T, o) ->
   forall p q, T = p ++ q -> N.of_nat (length (works p)) <= ticks p.
-Proof.
-  intros cfg m m' afs host cap fuel fi args T o Hi Ha H p q Hpq.
-  destruct (metered_run_prepaid_exact _ _ _ _ _ _ _ _ _ _ _ Hi Ha H) as [Hp _].
-  specialize (Hp p q Hpq). pose proof (works_le_work p). eapply N.le_trans; eassumption.
-Qed.
+Proof. exact MeterSafe.costed_steps. Qed.
 Print Assumptions costed_steps_le_ticks.
 
 (** non-vacuity: a concrete module with a loop, a br_if, a call and memory.grow is metered by both
@@ -191,15 +187,7 @@ Theorem meter_exact_wrt_source : forall cfg m m' afs_s afs_m h cap fuel fi args 
   trun h cap m afs_s fuel fi args = (W, Done r mem g) ->
   exists f0 T, (forall f, (f0 <= f)%nat -> trun (mhost h) cap m' afs_m f (S fi) args = (T, Done r mem g)) /\
                ticks T = work W.
-Proof.
-  intros cfg m m' afs_s afs_m h cap fuel fi args W r mem g Hi Hs Hm H.
-  assert (N1 : Done r mem g <> OutOfFuel) by discriminate. assert (N2 : Done r mem g <> Stuck) by discriminate.
-  destruct (MeterSim.metered_work_is_source_work _ _ _ _ _ _ _ _ _ _ _ _ Hi Hs Hm H N1 N2)
-    as [f0 [T [HT [_ [Hw _]]]]].
-  exists f0, T. split; [exact HT|].
-  destruct (metered_run_prepaid_exact _ _ _ _ _ _ _ _ _ _ _ Hi Hm (HT f0 (le_n _))) as [_ He].
-  rewrite (He r mem g eq_refl). exact Hw.
-Qed.
+Proof. exact MeterSim.exact_wrt_source. Qed.
 Print Assumptions meter_exact_wrt_source.
 
 (** ** flat_structured_agree: the transcription of [InstrSeqTransformer::run] on the opcode stream of
@@ -221,10 +209,7 @@ Theorem flat_structured_agree_v0_v1 : forall m m',
   (inject CostV1.cfg m = Some m' ->
    inject_flat CostV1.cfg m (map (fun f => flatten_body (f_body f)) (m_funcs m)) =
    Some (map (fun f => flatten_body (f_body f)) (m_funcs m'))).
-Proof.
-  intros m m'. split; apply MeterFlat.flat_structured_agree; intro L;
-    first [apply (v0_end_else L (ctx_of_module m)) | apply (v1_end_else L (ctx_of_module m))].
-Qed.
+Proof. exact CostPositive.flat_agree_v0_v1. Qed.
 Print Assumptions flat_structured_agree_v0_v1.
 
 (** ** meter_bounds_steps and metered_run_terminates_within.
@@ -239,10 +224,7 @@ Theorem meter_bounds_steps : forall cfg m m' afs host cap fuel fi args T o,
   inject cfg m = Some m' -> ameter_funcs cfg m = Some afs ->
   trun host cap m' afs fuel fi args = (T, o) ->
   evs T <= module_bound afs * (1 + 2 * ticks T).
-Proof.
-  intros cfg m m' afs host cap fuel fi args T o Hp Hi Hm H.
-  destruct (metered_run_bounds cfg m m' afs host cap fuel fi args T o Hp Hi Hm H) as [HA _]. exact HA.
-Qed.
+Proof. exact MeterBound.bounds_steps. Qed.
 Print Assumptions meter_bounds_steps.
 
 Theorem metered_run_terminates_within : forall cfg m m' afs host cap fuel fi args T B,
@@ -250,19 +232,12 @@ Theorem metered_run_terminates_within : forall cfg m m' afs host cap fuel fi arg
   inject cfg m = Some m' -> ameter_funcs cfg m = Some afs ->
   module_bound afs * (1 + 2 * B) < N.of_nat fuel ->
   trun host cap m' afs fuel fi args = (T, OutOfFuel) -> B < ticks T.
-Proof.
-  intros cfg m m' afs host cap fuel fi args T B Hp Hi Hm Hf H.
-  destruct (metered_run_bounds cfg m m' afs host cap fuel fi args T OutOfFuel Hp Hi Hm H) as [_ HF].
-  specialize (HF eq_refl). pose proof (module_bound_ge1 afs).
-  destruct (N.lt_ge_cases B (ticks T)) as [Hlt|Hge]; [exact Hlt|]. exfalso.
-  assert (module_bound afs * (1 + 2 * ticks T) <= module_bound afs * (1 + 2 * B)) by (apply N.mul_le_mono_l; lia).
-  lia.
-Qed.
+Proof. exact MeterBound.terminates_within. Qed.
 Print Assumptions metered_run_terminates_within.
 
 (** both generated schedules satisfy the positivity hypothesis *)
 Theorem generated_schedules_positive : forall cx, positive_cfg CostV0.cfg cx /\ positive_cfg CostV1.cfg cx.
-Proof. intro cx. exact (conj (positive_v0 cx) (positive_v1 cx)). Qed.
+Proof. exact CostPositive.schedules_positive. Qed.
 Print Assumptions generated_schedules_positive.
 
 (** non-vacuity: an endless loop and an endless recursion are metered, and with fuel 2000 their runs
